@@ -305,6 +305,41 @@ def r3_finish(ctx, cfg='A'):
                 good = False
         if good and np_ >= 2 and any(x[0] == 'field' and x[2] == 'remaining' for x in walk(f.expr_operand(s.args[0], s.b, 'T'))):
             drains.append(s)
+    # ... or the same generator consumed by a `for` loop that ends on exhaustion only:
+    # `for frame in iter::from_fn(|| (!set.is_empty()).then(|| set.fetch_next())) { remaining.push(frame) }`
+    class _B:
+        def __init__(self, b): self.b = b
+        def where(self): return f.where(self.b)
+    for s in f.calls():
+        if not s.name.endswith('iter::from_fn') or not s.args:
+            continue
+        cl = peel(f.expr_operand(s.args[0], s.b, 'T'))
+        g = P.fns.get(cl[1][len('closure:'):]) if cl[0] == 'agg' and str(cl[1]).startswith('closure:') else None
+        if g is None:
+            continue
+        good, np_ = True, 0
+        for gp, go, gd in fn_paths(ctx, g):
+            if go != 'return':
+                continue
+            np_ += 1
+            rv = path_ret(g, gp)
+            rvp = peel(rv) if rv is not None else ('unknown',)
+            if rvp[0] == 'call' and rvp[1].endswith('bool::then') and len(rvp[2]) == 2:
+                cond = peel(rvp[2][0])
+                neg = cond[0] == 'un' and cond[1] == 'Not' and peel(cond[2])[0] == 'call' and peel(cond[2])[1] == _fes(cfg) + '::is_empty'
+                inner = peel(rvp[2][1])
+                h = P.fns.get(inner[1][len('closure:'):]) if inner[0] == 'agg' and str(inner[1]).startswith('closure:') else None
+                fetches = h is not None and all(peel(t2)[0] == 'call' and peel(t2)[1] == _fes(cfg) + '::fetch_next' for _, t2 in ret_trees(h)) and bool(ret_trees(h))
+                good = good and neg and fetches
+            else:
+                good = False
+        if not (good and np_ >= 1):
+            continue
+        for c in f.calls():
+            if c.callee == 'std::iter::Iterator::next' and c.args and any(x[0] == 'call' and x[1].endswith('iter::from_fn') and x[3] == s.b for x in walk(f.expr_operand(c.args[0], c.b, 'T'))):
+                h_ = innermost_loop(f, c.b)
+                if h_ is not None and loop_exits_only_on_exhaustion(f, h_):
+                    drains.append(_B(h_))
     for path, outcome, decs in fn_paths(ctx, f):
         if outcome != 'return':
             continue
@@ -350,7 +385,15 @@ def r3_finish(ctx, cfg='A'):
     ctx.floor('successful returns of finish', n, 2)
     # drain loop: fetch_next result is pushed
     fetch = f.calls_to(_fes(cfg) + '::fetch_next')
-    if drains and not fetch:
+    if drains and not fetch and isinstance(drains[0], _B):
+        h_ = drains[0].b
+        body = f.loops()[h_]
+        pushes = [x for x in f.calls() if x.b in body and x.name in ('std::vec::Vec::push', 'std::collections::VecDeque::push_back') and
+                  any(y[0] == 'field' and y[2] == 'remaining' for y in walk(f.expr_operand(x.args[0], x.b, 'T'))) and
+                  any(is_next(y) for y in walk(f.expr_operand(x.args[1], x.b, 'T')))]
+        ctx.check(bool(pushes) and not [a for sb_, a in f.guard_atoms(pushes[0].b) if a and a[0] in ('bool', 'cmp') and sb_ in body], 'drain-pushes-all',
+                  'finish fetches until the set is empty and records every fetched frame as remaining', drains[0].where())
+    elif drains and not fetch:
         ctx.ok('finish drains the event set into `remaining` through extend(from_fn(..)): every fetched frame is recorded until the set is empty', drains[0].where())
     elif ctx.floor('fetch_next in finish', len(fetch), 1):
         s = fetch[0]
